@@ -37,6 +37,21 @@ fn set(c: &Clock) -> Row {
 /// 10: "HH:MI AM" with empty text            11: "SS" (i[4])
 /// 12: ".FF" (i[4] = microseconds/1000)      13: short year alone Y{n} (i[4] = n, i[5] = value)
 /// 14: "DD HH:MI PM" day + 12-hour time (i[4] day, i[5] hour12, i[6] minute, i[7] pm)
+pub const TIME_PICS: [&[&str]; 12] = [
+    &["HH24", ":", "MI", ":", "SS", ".", "FF"],
+    &["HH", ":", "MI", ":", "SS", " ", "AM"],
+    &["AM", " ", "HH", ":", "MI", ":", "SS"],
+    &["P.M.", " ", "HH12"],
+    &["MI", ":", "SS", " ", "HH24"],
+    &["SS", " ", "PM", " ", "HH12", " ", "MI"],
+    &["FF3", " ", "HH24"],
+    &["A.M.", ":", "MI", ":", "HH12"],
+    &["AM", "HH"],
+    &["PM", ":", "MI", ":", "HH"],
+    &["SS", ".", "FF", " ", "MI", " ", "HH24"],
+    &["HH12", " ", "PM", " ", "MI", ":", "SS"],
+];
+
 pub fn check_default(kind: Kind, clock: Clock, spec: &[i128]) -> Result<(), String> {
     let c = cal();
     let r = set(&clock);
@@ -110,10 +125,72 @@ pub fn check_default(kind: Kind, clock: Clock, spec: &[i128]) -> Result<(), Stri
                 (format!("DD.MM.{}", "Y".repeat(n as usize)), format!("04.03.+{}", a(2)), with_time(date(y, 3, 4), 0))
             }
         }
+        // 19: omission grid: time part TIME_PICS[i[4]] (several field orders, meridian before or
+        //     after the 12-hour field) spelled up to token i[5], time of day i[6] seconds + i[7] ms,
+        //     date prefix i[8] (0 none, 1 "DD ", 2 "YYYY-MM-DD ")
+        19 => {
+            let toks = TIME_PICS[a(1) as usize % TIME_PICS.len()];
+            let cut = (a(2) as usize).min(toks.len());
+            let (h, mi, se, ms) = (a(3) / 3600 % 24, a(3) / 60 % 60, a(3) % 60, a(4) % 1000);
+            let (mut pic, mut text, d) = match a(5) {
+                1 => ("DD ".to_string(), "17 ".to_string(), date(cy, cm, 17)),
+                2 => ("YYYY-MM-DD ".to_string(), "1969-07-20 ".to_string(), date(1969, 7, 20)),
+                _ => (String::new(), String::new(), date(cy, cm, 1)),
+            };
+            let is = |i: usize, names: &[&str]| i < cut && names.contains(&toks[i]);
+            let spelled = |names: &[&str]| (0..toks.len()).any(|i| is(i, names));
+            let mer = ["AM", "PM", "A.M.", "P.M."];
+            if spelled(&["HH", "HH12"]) && !spelled(&mer) {
+                return Ok(()); // not generated: a spelled 12-hour field always has its meridian spelled
+            }
+            for (i, t) in toks.iter().enumerate() {
+                pic.push_str(t);
+                if i >= cut {
+                    continue;
+                }
+                match *t {
+                    "HH24" => text.push_str(&format!("{h:02}")),
+                    "HH" | "HH12" => text.push_str(&format!("{}", (h + 11) % 12 + 1)),
+                    "MI" => text.push_str(&format!("{mi:02}")),
+                    "SS" => text.push_str(&format!("{se:02}")),
+                    "FF" => text.push_str(&format!("{:06}", ms * 1000)),
+                    "FF3" => text.push_str(&format!("{ms:03}")),
+                    "AM" | "PM" => text.push_str(if h < 12 { "am" } else { "PM" }),
+                    "A.M." | "P.M." => text.push_str(if h < 12 { "A.M." } else { "p.m." }),
+                    sep => text.push_str(sep),
+                }
+            }
+            let has12 = toks.iter().any(|t| *t == "HH" || *t == "HH12");
+            let hour = if has12 {
+                match (spelled(&["HH", "HH12"]), spelled(&mer)) {
+                    (true, _) => h,
+                    (false, true) => {
+                        if h < 12 {
+                            0
+                        } else {
+                            12
+                        }
+                    }
+                    (false, false) => 12,
+                }
+            } else if spelled(&["HH24"]) {
+                h
+            } else {
+                0
+            };
+            let tod = hour as i128 * US_PER_HOUR
+                + if spelled(&["MI"]) { mi as i128 * US_PER_MIN } else { 0 }
+                + if spelled(&["SS"]) { se as i128 * US_PER_SEC } else { 0 }
+                + if spelled(&["FF", "FF3"]) { ms as i128 * 1000 } else { 0 };
+            let has_ff = toks.iter().any(|t| t.starts_with("FF"));
+            let want = if kind == Kind::Date || (kind == Kind::Ora && has_ff) { None } else { with_time(d, tod) };
+            (pic, text, want)
+        }
         k => return Err(format!("unknown default spec {k}")),
     };
     // time-bearing specs make no sense for the plain Date type: an error is required there
     let want = if kind == Kind::Date && matches!(spec[0], 9 | 10 | 11 | 12 | 14) { None } else { want };
+    let _ = ();
     let want = if kind == Kind::Ora && spec[0] == 12 { None } else { want };
     let res = check_parse(kind, &pic, &text, want);
     ad::clock_clear();
@@ -259,6 +336,11 @@ fn specs_for(r: &Row, idx: u64, seed: u64, thorough: bool) -> Vec<Vec<i128>> {
     v.push(vec![14, 31, 12, 30, 0]);
     v.push(vec![14, 1, 12, 0, 1]);
     v.push(vec![14, len, 1 + sm.below(12) as i128, sm.below(60) as i128, sm.below(2) as i128]);
+    // omission grid: two (picture, cut, time, prefix) combinations per clock, all of them over the sweep
+    for _ in 0..if thorough { 6 } else { 2 } {
+        let p = sm.below(TIME_PICS.len() as u64) as usize;
+        v.push(vec![19, p as i128, sm.below(TIME_PICS[p].len() as u64 + 1) as i128, sm.below(86_400) as i128, sm.below(1000) as i128, sm.below(3) as i128]);
+    }
     v
 }
 
@@ -287,7 +369,7 @@ pub fn run(ctx: &Ctx) -> (Stats, Report) {
                         _ => &[Kind::Ora],
                     };
                     // time-bearing specs always go through Timestamp too
-                    let extra = matches!(spec[0], 9 | 10 | 11 | 12 | 14);
+                    let extra = matches!(spec[0], 9 | 10 | 11 | 12 | 14 | 19);
                     for &kind in kinds.iter().chain(if extra { [Kind::Ts].iter() } else { [].iter() }) {
                         st.evaluations += 1;
                         if special {
@@ -338,6 +420,51 @@ pub fn run(ctx: &Ctx) -> (Stats, Report) {
     st.exhaustive_sections.push(format!("every possible current local date (all 3,652,059 days) x {} time(s) of day x partial pictures + now()/try_from(Time)", tods.len()));
     st.section("every_current_date", &mut mark);
 
+    // omission grid: every time-part picture x every cut x time classes x date prefixes under 7 clocks
+    let gclocks: Vec<i32> = vec![c.first, c.lookup(1600, 2, 29).unwrap(), c.lookup(1969, 12, 31).unwrap(), 0, c.lookup(2024, 2, 29).unwrap(), c.lookup(2026, 10, 2).unwrap(), c.last];
+    let mut grid: Vec<Vec<i128>> = vec![];
+    let mut times: Vec<i128> = vec![0, 1, 59, 60, 3599, 3600, 11 * 3600 + 59 * 60 + 59, 12 * 3600, 12 * 3600 + 1, 13 * 3600 + 5 * 60 + 9, 23 * 3600, 86_399];
+    let mut sm = SplitMix(seed ^ 0x1819);
+    for _ in 0..if ctx.thorough { 200 } else { 20 } {
+        times.push(sm.below(86_400) as i128);
+    }
+    for (p, toks) in TIME_PICS.iter().enumerate() {
+        for cut in 0..=toks.len() {
+            for &t in &times {
+                for pre in 0..3 {
+                    grid.push(vec![19, p as i128, cut as i128, t, (t * 37 + 500) % 1000, pre]);
+                }
+            }
+        }
+    }
+    let gref = &grid;
+    let gc = &gclocks;
+    let s = par_sweep(grid.len() as u64, 64, |range, st| {
+        for k in range {
+            let spec = &gref[k as usize];
+            for (ci, &n) in gc.iter().enumerate() {
+                let clock = Clock { n, tod: tref[ci % tref.len()] };
+                for kind in [Kind::Ts, Kind::Ora, Kind::Date] {
+                    st.evaluations += 1;
+                    let cutn = spec[2] as usize;
+                    if cutn < TIME_PICS[spec[1] as usize].len() {
+                        st.nontrivial_enum += 1;
+                        st.class("time-part-text-ends-early");
+                    }
+                    if let Err(m) = check_default(kind, clock, spec) {
+                        let mut iv = vec![kind.index() as i128, n as i128, clock.tod as i128];
+                        iv.extend(spec.iter().copied());
+                        st.fail(k, Case::new(P, "default", iv, vec![]), m);
+                        return;
+                    }
+                }
+            }
+        }
+    });
+    st.merge(s);
+    st.exhaustive_sections.push(format!("omission grid: {} time-part pictures (both meridian/hour orders, permuted fields) x every cut position x {} times of day x 3 date prefixes x 7 clocks x 3 types", TIME_PICS.len(), times.len()));
+    st.section("omission_grid", &mut mark);
+
     // complete pictures: independent of the clock
     let clocks: Vec<Clock> = [c.first, c.first + 58, c.lookup(1600, 2, 29).unwrap(), c.lookup(1999, 12, 31).unwrap(), 0, c.lookup(2024, 2, 29).unwrap(), c.lookup(9999, 1, 31).unwrap(), c.last - 1, c.last]
         .iter()
@@ -386,7 +513,7 @@ pub fn run(ctx: &Ctx) -> (Stats, Report) {
     let _ = Time::ZERO;
 
     let rep = Report {
-        rule: format!("The injected clock (cargo feature verif-hooks, thread-local) ranges over ALL 3,652,059 possible current local dates x {} time(s) of day. Under each clock: partial pictures \"\", DD (1, 28..31, month length +-), MM, MM-DD, MON DD, YYYY, YYYY-DD, DDD (incl. 365/366), Y / YY / YYY with value classes (all values for Y/YY in thorough) alone and with month/day, HH24:MI, HH:MI AM with empty text, SS, .FF, DD HH:MI PM, rotated over Date / Timestamp / OracleDate; Date::now, Timestamp::now, OracleDate::now, Timestamp::try_from(Time), OracleDate::try_from(Time). Oracle: model defaults (year and month from the clock, day 1, time 0, 12 for an omitted 12-hour field, short years completed with the leading digits of the clock year) validated by the walked calendar (so DD=31 in a 30-day current month, DDD=366 in a common current year, a completed year 0 are errors). Complete pictures (7 shapes x date pool) must give the identical value under 9 different clocks incl. both range ends. Non-trivial = clock at a month end / year end / century-end year / 29 Feb / year < 1000 / year 9999; distinct by enumeration.", tods.len()),
+        rule: format!("The injected clock (cargo feature verif-hooks, thread-local) ranges over ALL 3,652,059 possible current local dates x {} time(s) of day. Under each clock: partial pictures \"\", DD (1, 28..31, month length +-), MM, MM-DD, MON DD, YYYY, YYYY-DD, DDD (incl. 365/366), Y / YY / YYY with value classes (all values for Y/YY in thorough) alone and with month/day, HH24:MI, HH:MI AM with empty text, SS, .FF, DD HH:MI PM, an omission grid (12 time-part pictures in several field orders, meridian before or after the 12-hour field, text ending after every token; also swept exhaustively under 7 clocks), rotated over Date / Timestamp / OracleDate; Date::now, Timestamp::now, OracleDate::now, Timestamp::try_from(Time), OracleDate::try_from(Time). Oracle: model defaults (year and month from the clock, day 1, time 0, 12 for an omitted 12-hour field, short years completed with the leading digits of the clock year) validated by the walked calendar (so DD=31 in a 30-day current month, DDD=366 in a common current year, a completed year 0 are errors). Complete pictures (7 shapes x date pool) must give the identical value under 9 different clocks incl. both range ends. Non-trivial = clock at a month end / year end / century-end year / 29 Feb / year < 1000 / year 9999; distinct by enumeration.", tods.len()),
         assumptions: vec!["the hook only replaces the value of chrono::Local::now().naive_local() at the six places the library reads it; with the feature off the code is the original".into()],
         exhaustive: true,
         extra: Default::default(),
